@@ -170,7 +170,7 @@ Print Assumptions c14_partial_state.
 Theorem c14_partial_refuted :
   Forall op_wf f12_ops /\
   exists w, run idh empty_world f12_ops =
-              (w, [ObReload (ROk true); ObConnected 0; ObReload RErr; ObReload (ROk false); ObBegun 0 0 true]) /\
+              (w, [ObReload (ROk true); ObConnected 0; ObReload RErr; ObReload (ROk false); ObBegun 0 0 false]) /\
             config (st w) = f12_new /\ pools (st w) = [((0, 0), (10, 0))] /\ objs w = [(0, ((0, 0), 10))] /\
             ~ agree idh w.
 Proof. exact partial_refuted. Qed.
@@ -208,7 +208,9 @@ Example ex_story_obs :
      OReload (Valid ex_c1 ex_ok);          (* both clients are in a transaction *)
      OEnd 0; OEnd 1; OBegin 0; OBegin 1; OEnd 0; OEnd 1; OConnect 2 2 0;
      OReload TomlError; OReload (Valid ex_c2 ex_ok); OBegin 1; OBegin 2; OReload (Valid ex_c2 ex_ok)])
-  = [(0, 2, 0, 0); (1, 0, 0, 0); (1, 1, 0, 0); (3, 0, 0, 1); (3, 1, 1, 1);
+  = [(0, 2, 0, 0);
+     (1, 0, 0, 0); (1, 1, 0, 0);            (* each first client validates its pool: servers 0 and 1 are opened, idle *)
+     (3, 0, 0, 0); (3, 1, 1, 0);
      (0, 2, 0, 0);                          (* reloaded: Ok(true) *)
      (4, 0, 0, 0); (4, 0, 0, 0);            (* both transactions end normally *)
      (3, 0, 0, 0);                          (* client 0: same object 0, same server 0 *)
@@ -217,7 +219,7 @@ Example ex_story_obs :
      (0, 0, 0, 0);                          (* TOML error: Err *)
      (0, 2, 0, 0);                          (* pool 1 removed *)
      (2, 0, 0, 0);                          (* client 1: No pool configured *)
-     (3, 3, 3, 1);                          (* client 2 unaffected *)
+     (3, 3, 3, 0);                          (* client 2 unaffected *)
      (0, 1, 0, 0)].                         (* same file again: Ok(false) *)
 Proof. vm_compute. reflexivity. Qed.
 
